@@ -124,3 +124,42 @@ Print Assumptions C02_world_history.
 Print Assumptions C02_world_held.
 Print Assumptions C02_world_deactivation.
 Print Assumptions C02_world_nothing_after.
+
+(* ---- the third sentence at world level (Proofs/TrackReactP.v): deactivation requested from inside observers.
+   [balance e a l] = number of Started minus number of Canceled / Completed that e receives for a in l;
+   [open_of] = 1 iff the registry holds a non-None state for (c, e, a).  Whatever the armed reactions request and in
+   whatever order the events of the frame reach e (the delivery is a permutation of the frame's own events and of
+   the events of the operations the observers requested, `frame_r_linear`), every episode that is opened is closed
+   exactly once.  Side condition: e does not JOIN a live shared instance in the step (it would inherit an open episode
+   without a Started; `C02_join_side_condition_needed` shows a reachable run where the equation fails without it) ---- *)
+From BEI Require Import Proofs.TrackReactP.
+Theorem C02_world_reactions_frame : forall sc c e a armed w f fo,
+  reg_inv sc w -> cfg_inv sc (w_reg w) -> owner sc c a -> ev_free sc c a ->
+  no_join_inputs c e armed (f_ops f) ->
+  frame_r sc armed w f = Some fo ->
+  open_of (stored (w_reg w) c e a) + balance e a (fr_main fo ++ fr_post fo) = open_of (stored (w_reg (fr_world fo)) c e a)
+  /\ reg_inv sc (fr_world fo) /\ cfg_inv sc (w_reg (fr_world fo)).
+Proof. exact frame_r_balance. Qed.
+(* any run from the empty world, operations and frames, with any set of armed reactions: at every prefix and at the
+   end, (Started - terminal) delivered so far = "an episode is open now", which is 0 or 1 *)
+Theorem C02_world_reactions_history : forall sc c e a armed steps1 steps2 r,
+  owner sc c a -> ev_free sc c a ->
+  no_join_inputs c e armed (flat_map step_ops (steps1 ++ steps2)) ->
+  run_r sc armed world_init (steps1 ++ steps2) = Some r ->
+  exists r1, run_r sc armed world_init steps1 = Some r1 /\
+    balance e a (ru_events r1) = open_of (stored (w_reg (ru_world r1)) c e a) /\
+    0 <= balance e a (ru_events r1) <= 1 /\
+    balance e a (ru_events r) = open_of (stored (w_reg (ru_world r)) c e a) /\
+    0 <= balance e a (ru_events r) <= 1.
+Proof. exact run_history_balance. Qed.
+(* the delivery discipline itself: what a frame with reactions delivers is a permutation of the frame's own events
+   and of the events of the operations the fired reactions requested, applied in order from the mid-frame world *)
+Theorem C02_join_side_condition_needed :
+  exists sc c e a steps r,
+    owner sc c a /\ ev_free sc c a /\ run_r sc [] world_init steps = Some r /\
+    kinds (ev_of e a (ru_events r)) = [ECompleted] /\
+    balance e a (ru_events r) = -1 /\ open_of (stored (w_reg (ru_world r)) c e a) = 0.
+Proof. exact join_side_condition_needed. Qed.
+Print Assumptions C02_world_reactions_frame.
+Print Assumptions C02_world_reactions_history.
+Print Assumptions C02_join_side_condition_needed.
